@@ -36,14 +36,14 @@ NW = 'tracklib/io/network_writer.py'
 
 # ---------------------------------------------------------------- C01
 M('C01', 'create-wrong-index', TRACK, "        idAF = len(self.__analyticalFeaturesDico)\n        self.__analyticalFeaturesDico[name] = idAF",
-  "        idAF = len(self.__analyticalFeaturesDico) + 1\n        self.__analyticalFeaturesDico[name] = idAF", 'C01.P1')
+  "        idAF = len(self.__analyticalFeaturesDico) + 1\n        self.__analyticalFeaturesDico[name] = idAF", 'C01.H')
 M('C01', 'remove-no-shift', TRACK, "            if self.__analyticalFeaturesDico[k] > idAF:\n                self.__analyticalFeaturesDico[k] -= 1",
-  "            if self.__analyticalFeaturesDico[k] > idAF:\n                pass", 'C01.P2')
-M('C01', 'remove-shift-by-two', TRACK, "                self.__analyticalFeaturesDico[k] -= 1", "                self.__analyticalFeaturesDico[k] -= 2", 'C01.P2')
+  "            if self.__analyticalFeaturesDico[k] > idAF:\n                pass", 'C01.H')
+M('C01', 'remove-shift-by-two', TRACK, "                self.__analyticalFeaturesDico[k] -= 1", "                self.__analyticalFeaturesDico[k] -= 2", 'C01.H')
 M('C01', 'remove-read-after-del', TRACK,
   "        idAF = self.__analyticalFeaturesDico[name]\n        for i in range(self.size()):\n            del self.getObs(i).features[idAF]\n        del self.__analyticalFeaturesDico[name]",
-  "        idAF = len(self.__analyticalFeaturesDico) - 1\n        for i in range(self.size()):\n            del self.getObs(i).features[idAF]\n        del self.__analyticalFeaturesDico[name]", 'C01.P2')
-M('C01', 'update-other-column', TRACK, "        idAF = self.__analyticalFeaturesDico[name] \n", "        idAF = len(self.__analyticalFeaturesDico) - 1\n", 'C01.P3')
+  "        idAF = len(self.__analyticalFeaturesDico) - 1\n        for i in range(self.size()):\n            del self.getObs(i).features[idAF]\n        del self.__analyticalFeaturesDico[name]", 'C01.H')
+M('C01', 'update-other-column', TRACK, "        idAF = self.__analyticalFeaturesDico[name] \n", "        idAF = len(self.__analyticalFeaturesDico) - 1\n", 'C01.H')
 M('C01', 'cleanup-only-first', TRACK, "            for af in SUPPRESS_AF:\n                if af[0] == \"#\":\n                    self.removeAnalyticalFeature(af)",
   "            for af in SUPPRESS_AF:\n                if af[0] == \"#\" and len(af) > 2:\n                    self.removeAnalyticalFeature(af)", 'C01.T')
 M('C01', 'operator-moves-x', OPS, "        f = lambda x: -x\n        return track.operate(Operator.APPLY, af_input, f, af_output)",
